@@ -71,7 +71,8 @@ def run(res):
         cases.append(([[i + 1, i] if i % 3 == 0 and i + 1 < n else ([i + 1] if i + 1 < n else [0]) for i in range(n)],
                       list(reversed(range(n)))))                                                      # ring with self-loops
     # odd node names: the same graphs with nodes renamed to None, tuples, strings, negative ints, floats, frozensets
-    ODD = [None, (), (0, 1), 'x', '', -1, -2, 2.5, frozenset([1]), ('t', None), 'None', 0, True]
+    # float('nan') is a legal node (hashable) that is not equal to itself: dicts find it by identity
+    ODD = [None, (), float('nan'), (0, 1), 'x', '', -1, -2, 2.5, frozenset([1]), ('t', None), 'None', 0, True]
     named = []
     for _ in range(400 if quick else 4000):
         adj = random_digraph(rng, 7)
